@@ -277,14 +277,17 @@ def campaign(mod, tier, seed, workers=None, max_runs=None, time_cap=None, out=sy
     known = load_known(mod.ID)
     base = base_tmp()
     counter = multiprocessing.Value("i", 0)
-    nsamples = 4
+    # sampled cases written into the evidence: two from the start (the systematic block, if the
+    # property has one) and two from the seeded random part
+    sysn = len(mod.systematic()) if hasattr(mod, "systematic") else 0
+    sample_idx = sorted(set(i for i in (0, 1, sysn, sysn + 1, sysn + 2) if i < nruns))[:5]
     recs = {}
     harness_errors = []
     try:
         ctx = multiprocessing.get_context("fork")
         pool = ctx.Pool(workers, initializer=_worker_init, initargs=(mod.__name__, base, counter))
         try:
-            tasks = ((seed, tier, i, i < nsamples) for i in range(nruns))
+            tasks = ((seed, tier, i, i in sample_idx) for i in range(nruns))
             stopped_early = False
             for rec in pool.imap_unordered(_worker_run, tasks, chunksize=4):
                 if "harness_error" in rec:
@@ -385,7 +388,7 @@ def campaign(mod, tier, seed, workers=None, max_runs=None, time_cap=None, out=sy
                 len(new_sigs) - len(reported), ", ".join(new_sigs[len(reported):][:10])))
 
         wall = time.time() - t0
-        samples = [recs[i]["sample"] for i in range(min(nsamples, done)) if "sample" in recs[i]]
+        samples = [recs[i]["sample"] for i in sample_idx if i in recs and "sample" in recs[i]]
         zero_probes = sorted(k for k in getattr(mod, "PROBES", []) if stats.get(k, 0) == 0)
         cov = {
             "evaluations": done,
